@@ -3,6 +3,7 @@ package main
 import (
 	"bytes"
 	"fmt"
+	"math/big"
 	"strconv"
 	"sync"
 
@@ -402,6 +403,172 @@ func (e *env) splitCase(c Case, pre *splitPre) {
 	}
 	if rx, dec, ok := scramblesuit.VerifBufferSizes(dl.conn); ok && (rx >= 2*maxHsLen+mss || dec > 2*maxHsLen+mss) {
 		e.r.Violate("buffer-over-bound", "impl-oracle", fmt.Sprintf("receive buffers hold %d/%d bytes", rx, dec), c)
+	}
+}
+
+// ---------------------------------------------------------------- steered Diffie-Hellman values (leading zero bytes)
+
+// modp is the UniformDH modulus, from the package constant (not from its code).
+func modp() *big.Int {
+	p, ok := new(big.Int).SetString(uniformdh.VerifConstants()["modpStr"], 16)
+	if !ok {
+		must(fmt.Errorf("modpStr unparsable"))
+	}
+	return p
+}
+
+func privBytes(k *big.Int) []byte { return k.FillBytes(make([]byte, dhSize)) }
+
+// leadingZeros of the 192-byte big-endian encoding of v.
+func leadingZeros(v *big.Int) int { return dhSize - len(v.Bytes()) }
+
+var dhEdgeVariants = []string{"secret-1-zero-byte", "secret-2-zero-bytes", "server-public-zero-byte", "client-public-zero-byte-X", "client-public-zero-byte-p-X"}
+
+func (e *env) dhEdgeCases() {
+	for i, v := range dhEdgeVariants {
+		if !e.r.Thorough() && v == "client-public-zero-byte-p-X" && e.seed%2 == 0 {
+			continue
+		}
+		e.dhEdgeCase(Case{Kind: "dh-edge", Seed: e.seed, Target: v, Sub: uint64(i)})
+	}
+	if e.r.Thorough() {
+		for i := 0; i < 6; i++ {
+			e.dhEdgeCase(Case{Kind: "dh-edge", Seed: e.seed, Target: "secret-1-zero-byte", Sub: uint64(10 + i)})
+		}
+	}
+}
+
+// dhEdgeCase: key pairs are searched (plain math/big arithmetic over the group constant, independent of
+// the package's helpers; the values the session then uses come from the Lean reference server) so
+// that a 192-byte field starts with zero bytes: the shared secret (1 or 2 zero bytes), the server's
+// public value, the client's public value (sent as X, or as p-X). Then: the complete handshake
+// through the real client and data both ways.  S: stream exact (both sides derived the same keys).
+func (e *env) dhEdgeCase(c Case) {
+	p := modp()
+	ca := e.ca
+	cliPriv, cliPub := e.cliPriv, e.cliPub
+	start := int64(2000 + 2*(int64(e.seed%500)+int64(c.Sub)*977))
+	var srvPriv []byte
+	switch c.Target {
+	case "secret-1-zero-byte", "secret-2-zero-bytes":
+		// server exponent y = 2k: the secret (X or p-X)^y = (X^2)^k, one modular multiplication per candidate
+		want := 1
+		if c.Target == "secret-2-zero-bytes" {
+			want = 2
+		}
+		x := new(big.Int).SetBytes(cliPub)
+		x2 := new(big.Int).Exp(x, big.NewInt(2), p)
+		ss := new(big.Int).Exp(x2, big.NewInt(start/2), p)
+		k := start / 2
+		for tries := 0; leadingZeros(ss) < want; tries++ {
+			if tries > 3000000 {
+				e.r.Count("dh_edge", c.Target+"/not-found")
+				return
+			}
+			ss.Mul(ss, x2).Mod(ss, p)
+			k++
+		}
+		srvPriv = privBytes(big.NewInt(2 * k))
+	case "server-public-zero-byte":
+		// Y = g^y = 4^k for y = 2k (k large enough to wrap around the modulus)
+		four := big.NewInt(4)
+		k := start
+		y := new(big.Int).Exp(four, big.NewInt(k), p)
+		for leadingZeros(y) < 1 || leadingZeros(y) > 3 {
+			y.Mul(y, four).Mod(y, p)
+			k++
+		}
+		srvPriv = privBytes(big.NewInt(2 * k))
+	case "client-public-zero-byte-X", "client-public-zero-byte-p-X":
+		// the client's key pair: the tape is steered so that ParseArgs draws the private key 2k (sent: X)
+		// or 2k+1 (low bit set: sent p-X)
+		odd := c.Target == "client-public-zero-byte-p-X"
+		four := big.NewInt(4)
+		k := start
+		x := new(big.Int).Exp(four, big.NewInt(k), p)
+		sent := func() *big.Int {
+			if odd {
+				return new(big.Int).Sub(p, x)
+			}
+			return x
+		}
+		for leadingZeros(sent()) < 1 || leadingZeros(sent()) > 3 {
+			x.Mul(x, four).Mod(x, p)
+			k++
+		}
+		priv := big.NewInt(2 * k)
+		if odd {
+			priv.Add(priv, big.NewInt(1))
+		}
+		cliPriv = privBytes(priv)
+		e.tape.Steer = append([]byte(nil), cliPriv...)
+		var err error
+		ca, err = e.cf.ParseArgs(pwArgs(e.pw))
+		must(err)
+		if len(e.tape.Steer) != 0 {
+			must(fmt.Errorf("ParseArgs did not draw the steered private key"))
+		}
+		cliPub = vlib.UnHex(e.call("dh.pub %s", vlib.Hex(cliPriv))[1])
+		if !bytes.Equal(cliPub, sent().FillBytes(make([]byte, dhSize))) {
+			must(fmt.Errorf("the Lean reference computes another public value than the search"))
+		}
+		srvPriv = e.srvPriv
+	default:
+		must(fmt.Errorf("unknown dh-edge variant %q", c.Target))
+	}
+	srvPub := vlib.UnHex(e.call("dh.pub %s", vlib.Hex(srvPriv))[1])
+	seedRep := e.call("dh.seed %s %s", vlib.Hex(srvPriv), vlib.Hex(cliPub))
+	seed := vlib.UnHex(seedRep[1])
+	// the reference's view of the field that was steered (for the evidence and as a guard of the search)
+	ssRef := new(big.Int).Exp(new(big.Int).SetBytes(cliPub), new(big.Int).SetBytes(srvPriv), p)
+	ssRef2 := new(big.Int).Exp(new(big.Int).SetBytes(cliPub), new(big.Int).Sub(new(big.Int).SetBytes(srvPriv), big.NewInt(int64(srvPriv[dhSize-1]&1))), p)
+	_ = ssRef
+	zeros := map[string]int{"secret": leadingZeros(ssRef2), "server-public": dhSize - len(bytes.TrimLeft(srvPub, "\x00")), "client-public": dhSize - len(bytes.TrimLeft(cliPub, "\x00"))}
+	for try := 0; try < 3; try++ {
+		hour := curHour()
+		dl := startDial(e.cf, ca, fmt.Sprintf("10.5.0.%d:443", c.Sub%250))
+		if dl.sc.Wait(dl.op) {
+			e.r.Violate("dial-returns-before-response", "impl-oracle", fmt.Sprintf("Dial returned (err=%v, panic=%v) before any server byte", dl.err, dl.op.Panic), c)
+			return
+		}
+		hello := dl.sc.TakeWritten()
+		resp := e.serverRespFor(srvPriv, e.kB, e.padFor(int(c.Sub)%30), hour)
+		dl.sc.Feed(resp)
+		fin := dl.sc.Wait(dl.op)
+		if curHour() != hour {
+			dl.sc.Close()
+			dl.sc.Wait(dl.op)
+			continue
+		}
+		e.r.Case(fmt.Sprintf("dh-edge/%s/%x", c.Target, srvPriv[dhSize-8:]), true)
+		e.r.Count("kind", "dh-edge")
+		e.r.Count("dh_edge", fmt.Sprintf("%s/secret-zeros=%d,server-pub-zeros=%d,client-pub-zeros=%d", c.Target, zeros["secret"], zeros["server-public"], zeros["client-public"]))
+		if msg := checkFlightGo(e.kB, dhSize, hello, hour); msg != "" {
+			e.r.Violate("client-flight-not-conforming", "impl-oracle", c.Target+": UniformDH flight: "+msg, c)
+			dl.sc.Close()
+			return
+		}
+		if !bytes.Equal(hello[:dhSize], cliPub) {
+			e.r.Violate("client-public-value-wrong", "impl-oracle",
+				fmt.Sprintf("%s: the public value on the wire is not the 192-byte encoding the reference computes for the client's private key", c.Target), c)
+			dl.sc.Close()
+			return
+		}
+		if !fin || dl.op.Panic != nil || dl.err != nil {
+			e.r.Violate("handshake-fails", "impl-oracle", fmt.Sprintf("%s: Dial on a conforming response: finished=%v err=%v panic=%v", c.Target, fin, dl.err, dl.op.Panic), c)
+			if !dl.sc.Closed() {
+				dl.sc.Close()
+			}
+			dl.sc.Wait(dl.op)
+			return
+		}
+		s := &session{e: e, dl: dl, sc: dl.sc, conn: dl.conn, mode: "dh", id: "dhedge"}
+		e.call("sess.new %s %s", s.id, vlib.Hex(seed))
+		rng := vlib.NewRng(e.seed*53 + c.Sub)
+		ok := e.echo(s, rng, c, []string{c.Target}) && e.echo(s, rng, c, []string{c.Target})
+		s.close()
+		_ = ok
+		return
 	}
 }
 
